@@ -34,3 +34,7 @@ Definition complete_graph_gonality (n : Z) : option (Z) :=
 (* chipfiring/CFGraph.py :: CFGraph.get_genus *)
 Definition CFGraph_get_genus (self_total_valence : Z) (self_vertices : list Z) : Z :=
   ((self_total_valence - (py_len self_vertices)) + 1).
+
+(* chipfiring/CFGraph.py :: CFGraph.is_loopless *)
+Definition CFGraph_is_loopless (v1_name : pystr) (v2_name : pystr) : bool :=
+  (negb (py_str_eqb v1_name v2_name)).
